@@ -845,7 +845,7 @@ class Check(PropertyCheck):
         "C08_never_valid", "C08_missing_command_forces", "C08_node_sig_tracks_producers", "C08_node_sig_changes",
         "C08_directory_attribute",
         # Props/C08Gen.lean: histories with description edits (engine theorems over program generations instantiated)
-        "C08_client_SigCovers", "C08_client_SelfStable", "C08_outputs_clean_gen", "C08_outputs_eval_gen",
+        "C08_client_SigCovers", "C08_client_SigCoversValid", "C08_client_SelfStable", "C08_outputs_clean_gen", "C08_outputs_eval_gen",
         "C08_inputs_current_gen", "C08_command_sig_tracks_definition", "C08_changed_definition_reruns_gen",
         "C08_value_records_outputs",
         "NeedProducerStable.C08_gen_needs_ProducerStable", "C08_SigCovers_needs_TargetsStable")]
@@ -859,16 +859,17 @@ class Check(PropertyCheck):
         "well-formedness predicate `Desc.wf`, not a theorem about the file system",
         "discovered dependencies (deps files) are not part of this model (C11); directory-tree nodes are C12",
         "description edits ARE proved (Props/C08Gen.lean: C08_outputs_clean_gen / C08_inputs_current_gen = C01_value_gen / C01_inputs_gen at "
-        "`fun g => client H (ds g)`; a description edit = the tool started again on the same database with another description), under three "
-        "explicit hypotheses: (1) the signature hash does not collide on the signature terms involved (`hH`; theorems are about pre-hash terms); "
-        "(2) `TargetsStable`: the target table is the same in every generation - a target rule has no signature, so the engine obligation "
-        "SigCovers fails for an edited target (C08_SigCovers_needs_TargetsStable) although a target's stored result is never reused; an edited "
-        "target is read as a new target index; (3) `ProducerStable`: a command that stays the single producer of a VIRTUAL node keeps its tool "
-        "class (phony / symlink / other) - getResultForOutput's PhonyCommand/SymlinkCommand overrides are covered neither by the node signature "
-        "nor by the command's value; without it the engine-level statement fails (C08_gen_needs_ProducerStable: a skipped phony command turned "
-        "into a skipped shell command), a case the command-line tool reports as a failed build. Nothing is assumed about non-virtual outputs: the "
-        "model's command value records its output list like the real BuildValue (C08_value_records_outputs), so reordering/adding/dropping outputs "
-        "is covered by the theorem. Edits outside (2)/(3) are covered end to end by the history oracle only",
+        "`fun g => client H (ds g)`; a description edit = the tool started again on the same database with another description; the client "
+        "obligations C08_client_SigCoversValid and C08_client_SelfStable are theorems), under two explicit hypotheses: (1) the signature hash "
+        "does not collide on the signature terms involved (`hH`; theorems are about pre-hash terms); (2) `ProducerStable`: a command that stays "
+        "the single producer of a VIRTUAL node keeps its tool class (phony / symlink / other) - getResultForOutput's PhonyCommand/SymlinkCommand "
+        "overrides are covered neither by the node signature nor by the command's value; without it the engine-level statement fails "
+        "(C08_gen_needs_ProducerStable: a skipped phony command turned into a skipped shell command), a case the command-line tool reports as a "
+        "failed build. Nothing is assumed about targets (a target rule has no signature and never accepts its stored value; the engine "
+        "obligation SigCoversValid binds only rules that can be valid; the stronger SigCovers would need an unedited target table: "
+        "C08_SigCovers_needs_TargetsStable) nor about non-virtual outputs (the model's command value records its output list like the real "
+        "BuildValue, C08_value_records_outputs, so reordering/adding/dropping outputs is covered). Edits violating (2) are covered end to end by "
+        "the history oracle only",
         "engine theorems C01_value / C01_value_gen are about the abstract engine; their tie to BuildEngine.cpp is C01's correspondence; a "
         "description edit is modelled as the engine's `restart` event with another Program (same database, every rule looked up again)",
     ]
